@@ -62,6 +62,9 @@ func (g *Gen) call(fr *frame, st *State, site ssa.Instruction, cc *ssa.CallCommo
 	for _, a := range cc.Args {
 		args = append(args, g.val(fr, st, a))
 	}
+	if g.mutexOp(st, key, args) {
+		return &Value{T: rt}
+	}
 	if fr.fc != nil && len(fr.fc.AtCall) > 0 {
 		for i, cl := range fr.fc.AtCall[shortName(key)] {
 			env := &Env{g: g, st: st, old: fr.old, vars: map[string]*Value{}, fr: fr, pkgPath: fr.fn.Pkg.Pkg.Path(), inBody: true}
@@ -83,6 +86,9 @@ func (g *Gen) call(fr *frame, st *State, site ssa.Instruction, cc *ssa.CallCommo
 		if g.W.C.isSink(key) {
 			g.trusted["sink "+shortKey(key)] = true
 			return g.freshValue(st, "r."+shortName(key), rt)
+		}
+		if g.fc != nil && g.fc.OpaqueCalls {
+			return g.opaqueCall(fr, st, key, rt)
 		}
 		g.errorf("%s: uncontracted call to %s", funcKey(fr.fn), what)
 		return g.freshValue(st, "r."+shortName(key), rt)
@@ -210,6 +216,8 @@ func (g *Gen) applyContract(fr *frame, st *State, fc *FuncContract, key string, 
 	}
 	if g.panicsNever && !fc.PanicsNever && !fc.Trusted && !fc.IsLib {
 		g.addOblig(st, "safety", g.safetyName("callee-may-panic", shortKey(key)), "false", "callee is not proved panic-free")
+	} else if !g.panicsNever && g.fc != nil && len(g.fc.PanicOnlyWhen) > 0 && !fc.PanicsNever && !fc.IsLib {
+		g.maybePanic(fr, st, "callee-may-panic", shortKey(key))
 	}
 	for _, c := range fc.MayPanic {
 		env := &Env{g: g, st: st, old: pre, vars: vars, pkgPath: pkgPath}
@@ -441,6 +449,21 @@ func (g *Gen) havocTarget(env *Env, st *State, m Expr) error {
 				c := g.compTerm(st, key, srt)
 				g.setComp(st, key, srt, smtSto(c, s.L[0], g.fresh("hv.E", arrSort(sInt, l.Sort))))
 				g.logWrite(key, s.L[0])
+			}
+			return nil
+		case "allelems":
+			// every element of every slice/array with this element type
+			s := env.eval(x.Args[0])
+			sl, ok := types.Unalias(s.T).Underlying().(*types.Slice)
+			if !ok {
+				return fmt.Errorf("allelems: not a slice")
+			}
+			for _, l := range g.W.shapes.shape(sl.Elem()) {
+				key := g.elemCompKey(sl.Elem(), l.Path)
+				srt := arrSort(sInt, arrSort(sInt, l.Sort))
+				g.compTerm(st, key, srt)
+				g.setComp(st, key, srt, g.fresh("hv.C."+key, srt))
+				g.logWrite(key, "")
 			}
 			return nil
 		case "fields":
@@ -1001,4 +1024,134 @@ func (g *Gen) selectOp(fr *frame, st *State, i *ssa.Select) {
 		}
 	}
 	fr.regs[i] = res
+}
+
+// opaqueCall: an uncontracted callee under `opaque_calls`: it may panic, may change any memory and
+// returns an arbitrary value. Ghost state (lock sets, traces) is assumed untouched (listed).
+func (g *Gen) opaqueCall(fr *frame, st *State, key string, rt types.Type) *Value {
+	g.trusted["opaque "+shortKey(key)] = true
+	g.note("opaque callees are assumed not to lock or unlock the mutexes tracked by this function")
+	g.maybePanic(fr, st, "opaque-callee-may-panic", shortKey(key))
+	stable := g.stableComps()
+	for _, k := range sortedKeys(g.compSort) {
+		if strings.HasPrefix(k, "G|") || strings.HasPrefix(k, "CHN|") || strings.HasPrefix(k, "CHD|") || stable[k] {
+			continue
+		}
+		st.comps[k] = g.fresh("hv.C."+k, g.compSort[k])
+		g.logWrite(k, "")
+	}
+	na := g.fresh("alloc", sInt)
+	g.addCons(fmt.Sprintf("(>= %s %s)", na, st.alloc))
+	st.alloc = na
+	if g.dry > 0 {
+		g.wAlloc = true
+	}
+	return g.freshValue(st, "r."+shortName(key), rt)
+}
+
+// maybePanic: the current point may panic (for reasons the verifier cannot see). Acceptable unless the
+// function is panics_never or restricts where panics may happen.
+func (g *Gen) maybePanic(fr *frame, st *State, kind, what string) {
+	if g.fc == nil || (!g.panicsNever && len(g.fc.PanicOnlyWhen) == 0) {
+		return
+	}
+	goal := "false"
+	if len(g.fc.PanicOnlyWhen) > 0 {
+		goal = g.panicAllowed(st)
+	}
+	g.addOblig(st, "safety", g.safetyName(kind, what), goal, what)
+}
+
+// panicAllowed evaluates the panic_only_when clauses in the current state.
+func (g *Gen) panicAllowed(st *State) string {
+	var alts []string
+	for _, c := range g.fc.PanicOnlyWhen {
+		env := &Env{g: g, st: st, old: g.entry, vars: g.entryParams, pkgPath: g.fn.Pkg.Pkg.Path()}
+		alts = append(alts, env.evalBool(c.E))
+	}
+	return smtOr(alts...)
+}
+
+const heldKey = "G|$held|"
+
+// addrID: an integer identity for the address of a field of a heap object (used for mutexes).
+func (g *Gen) addrID(v *Value) (string, bool) {
+	lv := v.LV
+	if lv == nil {
+		if len(v.L) == 1 && !strings.HasPrefix(v.L[0], "?") {
+			return v.L[0], true
+		}
+		return "", false
+	}
+	switch lv.Kind {
+	case lvHeap, lvBox:
+		return fmt.Sprintf("(+ (* %s 4096) %s)", lv.Obj, g.typeID(types.NewPointer(types.Typ[types.Int]))+"000"[:0]+g.pathID(typeKey(lv.Root)+lv.Path)), true
+	}
+	return "", false
+}
+
+func (g *Gen) pathID(p string) string {
+	if g.pathIDs == nil {
+		g.pathIDs = map[string]int{}
+	}
+	id, ok := g.pathIDs[p]
+	if !ok {
+		id = len(g.pathIDs) + 1
+		g.pathIDs[p] = id
+	}
+	return fmt.Sprint(id)
+}
+
+// mutexOp tracks Lock/Unlock of sync mutexes in the ghost set of held locks.
+func (g *Gen) mutexOp(st *State, key string, args []*Value) bool {
+	var lock bool
+	switch key {
+	case "(*sync.Mutex).Lock", "(*sync.RWMutex).Lock", "(*sync.RWMutex).RLock":
+		lock = true
+	case "(*sync.Mutex).Unlock", "(*sync.RWMutex).Unlock", "(*sync.RWMutex).RUnlock":
+		lock = false
+	default:
+		return false
+	}
+	g.trusted["sink "+key] = true
+	if len(args) == 0 {
+		return true
+	}
+	id, ok := g.addrID(args[0])
+	if !ok {
+		return true
+	}
+	srt := arrSort(sInt, sBool)
+	cur := g.compTerm(st, heldKey, srt)
+	v := "false"
+	if lock {
+		v = "true"
+	}
+	g.setComp(st, heldKey, srt, smtSto(cur, id, v))
+	return true
+}
+
+// stableComps: components named by the function's `stable` clauses (fields assumed to be written only
+// at construction time; opaque callees do not havoc them).
+func (g *Gen) stableComps() map[string]bool {
+	if g.stableKeys != nil {
+		return g.stableKeys
+	}
+	g.stableKeys = map[string]bool{}
+	if g.fc == nil {
+		return g.stableKeys
+	}
+	for i, e := range g.fc.Stable {
+		env := &Env{g: g, st: g.entry, old: g.entry, vars: g.entryParams, pkgPath: g.fn.Pkg.Pkg.Path()}
+		lv, err := env.evalLV(e)
+		if err != nil || lv.Kind != lvHeap {
+			g.errorf("stable clause %q: %v", g.fc.StableSrc[i], err)
+			continue
+		}
+		for _, l := range g.W.shapes.shape(lv.T) {
+			g.stableKeys[g.fieldCompKey(lv.Root, lv.Path+l.Path)] = true
+		}
+		g.note("field assumed to be written only at construction: " + g.fc.StableSrc[i])
+	}
+	return g.stableKeys
 }
